@@ -28,11 +28,12 @@ class Renderer(object):
     ARRS = ['B%(2)', 'B%(0)', 'C!(1)']
     STRVARS = ['S0$', 'S1$', 'S2$', 'S3$']
 
-    def __init__(self, rng, plain=False):
+    def __init__(self, rng, plain=False, strvars=None):
         self.rng, self.plain = rng, plain
         self.pre = []           # LET statements to run before the DRAW
         self.nv = 0
-        self.sv = 0
+        # string variables still free for substrings (shared with the renderers of nested substrings: one variable per substring)
+        self.strvars = list(self.STRVARS) if strvars is None else strvars
 
     def num(self, n, allow_ref=True, force_sign=False, no_plus=False):
         rng = self.rng
@@ -84,14 +85,14 @@ class Renderer(object):
         if c['c'] in 'SC':
             return up(c['c']) + sp + self.num(c['n'])
         if c['c'] == 'X':
-            inner = Renderer(rng, plain=True)         # substrings: literal text (=VAR; references allowed inside by the outer pre list)
+            inner = Renderer(rng, plain=True, strvars=self.strvars)         # substrings: literal text
             text = inner.text(c['sub'], depth + 1)
-            self.pre += inner.pre
-            var = self.STRVARS[self.sv % len(self.STRVARS)] if depth == 0 else 'S3$'
-            self.sv += 1
-            if '"' in text or any(p.startswith(var + '=') for p in self.pre):
-                # nested substring text contains VARPTR$ concatenation / variable already used: inline instead
+            if not self.strvars:
+                # no string variable left: the substring is written in place (same command records, X dropped)
+                self.pre += inner.pre
                 return text
+            var = self.strvars.pop(0)
+            self.pre += inner.pre
             self.pre.append('%s="%s"' % (var, text))
             if rng.random() < 0.5 or depth > 0:
                 return 'X%s;' % var
